@@ -207,7 +207,7 @@ def monitor(case):
 
 
 def strip(case):
-    return {k: case[k] for k in ('name', 'nwf', 'nwg', 'pen', 'prog') if k in case}
+    return {k: case[k] for k in ('name', 'nwf', 'nwg', 'pen', 'gpu', 'refuse', 'prog') if k in case}
 
 
 def run_impl(binary, cases=None, seed=1, n=40, timeout=4000):
@@ -318,6 +318,8 @@ def main(argv):
         'issued_instruction_histogram': dict(hist),
         'cycles_simulated': sum(c['timing']['cycles'] for c in cases if c['timing']),
         'cases_with_full_barrier_buffer': full,
+        'cases_on_mi300a_cu': sum(1 for c in cases if c.get('gpu') == 'mi300a'),
+        'completion_sends_refused': sum(c['timing'].get('refused', 0) for c in cases if c['timing']),
         'cases_with_early_exit': sum(1 for c in cases if any(s['op'] == 'endpgm' and s.get('g') for s in c['prog'])),
         'model_mismatches': len(mism) + len(emism), 'monitor_failures': len(bad),
     })
